@@ -12,7 +12,7 @@ import (
 // version strings of every shape the property quantifies over.
 func randVersion(r *rng) []byte {
 	nums := []string{"0", "1", "2", "3", "5", "6", "7", "8", "9", "10", "007", "00", "4294967295", "4294967296", "99999999999999999999", "-1", "+1", "1_0", " 1", "1 ", "0x7", "", "７"}
-	switch r.intn(13) {
+	switch r.intn(14) {
 	case 0:
 		return []byte("9P2000.L")
 	case 1:
@@ -40,6 +40,16 @@ func randVersion(r *rng) []byte {
 			return b[r.intn(len(b)):]
 		}
 		return b[:r.intn(len(b)+1)]
+	case 11: // long strings (a version string may be 65535 bytes): answered, not dropped
+		if r.chance(1, 3) {
+			l := []int{8000, 8179, 8180, 8200, 20000, 65535}[r.intn(6)]
+			b := r.bytesN(l)
+			if r.chance(1, 2) {
+				copy(b, "9P2000.L.Google.7")
+			}
+			return b
+		}
+		return []byte("9P2000.L.Google.7")
 	case 10: // a bare number, or a number with another lead-in
 		leads := []string{"", "", "", ".", "Google.", "L.Google.", "9P2000.L.Google", "9P2000.L.Google.9P2000.L.Google.", "9P2000.u.Google.", "9P2000.Google."}
 		return []byte(leads[r.intn(len(leads))] + nums[r.intn(len(nums))])
